@@ -188,15 +188,18 @@ def Expr.isZeroStr : Expr → Bool
   | .lit _ sp => sp == ['0']
   | _ => false
 
+/-- astutils.cpp:1885-1887 -/
+def notGeneric (cpp : Bool) (x : Expr) (c2 : Ctx) (cond2 : Expr) : Bool :=
+  if !boolLike c2 cond2 then false else isSame cpp .lnot x c2 cond2
+
 /-- astutils.cpp:1878–1888: `cond1` is `!x` -/
 def notBranch (cpp : Bool) (x : Expr) (c2 : Ctx) (cond2 : Expr) : Bool :=
-  let generic := if !boolLike c2 cond2 then false else isSame cpp .lnot x c2 cond2
   match cond2 with
   | .bin _ .ne l r =>
     if l.isZeroStr then isSame cpp .lnot x .cop r
     else if r.isZeroStr then isSame cpp .lnot x .cop l
-    else generic
-  | _ => generic
+    else notGeneric cpp x c2 cond2
+  | _ => notGeneric cpp x c2 cond2
 
 /-- astutils.cpp:1894–1899 -/
 def eqEqRule (cpp : Bool) (cond1 cond2 : Expr) : Option Bool :=
@@ -271,35 +274,52 @@ def Expr.isLor : Expr → Bool
   | .bin _ .lor _ _ => true
   | _ => false
 
+/-- both conditions are `&&`: their operands -/
+def andPair (cond1 cond2 : Expr) : Option (Expr × Expr × Expr × Expr) :=
+  match cond1, cond2 with
+  | .bin _ .land l1 r1, .bin _ .land l2 r2 => some (l1, r1, l2, r2)
+  | _, _ => none
+
+/-- astutils.cpp:1848-1861: a common operand and opposite siblings (`rec` = the recursive call of `isOppositeCond`) -/
+def andHit (rec : Ctx → Expr → Ctx → Expr → Bool) (cpp : Bool) (cond1 cond2 : Expr) : Bool :=
+  match andPair cond1 cond2 with
+  | some (l1, r1, l2, r2) =>
+    (isSame cpp .logic l1 .logic l2 && rec .logic r1 .logic r2) ||
+    (isSame cpp .logic l1 .logic r2 && rec .logic r1 .logic l2) ||
+    (isSame cpp .logic r1 .logic l2 && rec .logic l1 .logic r2) ||
+    (isSame cpp .logic r1 .logic r2 && rec .logic l1 .logic l2)
+  | none => false
+
+/-- astutils.cpp:1863-1876: the token strings differ and one condition is `||`: its operands, and the other condition
+    (`cond2` is looked at last, so it wins) -/
+def lorPick (c1 : Ctx) (cond1 : Expr) (c2 : Ctx) (cond2 : Expr) : Option (Expr × Expr × Ctx × Expr) :=
+  if !(cond1.strEq cond2) && (cond1.isLor || cond2.isLor) then
+    match cond2 with
+    | .bin _ .lor l r => some (l, r, c1, cond1)
+    | _ =>
+      match cond1 with
+      | .bin _ .lor l r => some (l, r, c2, cond2)
+      | _ => none
+  else none
+
 def isOppF (cpp isNot : Bool) : Nat → Ctx → Expr → Ctx → Expr → Bool
   | 0, _, _, _, _ => false
   | n + 1, c1, cond1, c2, cond2 =>
     if isSame cpp c1 cond1 c2 cond2 then false
-    else if (!isNot &&
-        match cond1, cond2 with
-        | .bin _ .land l1 r1, .bin _ .land l2 r2 =>
-          (isSame cpp .logic l1 .logic l2 && isOppF cpp isNot n .logic r1 .logic r2) ||
-          (isSame cpp .logic l1 .logic r2 && isOppF cpp isNot n .logic r1 .logic l2) ||
-          (isSame cpp .logic r1 .logic l2 && isOppF cpp isNot n .logic l1 .logic r2) ||
-          (isSame cpp .logic r1 .logic r2 && isOppF cpp isNot n .logic l1 .logic l2)
-        | _, _ => false) then true
-    else if !(cond1.strEq cond2) && (cond1.isLor || cond2.isLor) then
-      match cond2 with
-      | .bin _ .lor l r => isOppF cpp isNot n .logic l c1 cond1 && isOppF cpp isNot n .logic r c1 cond1
-      | _ =>
-        match cond1 with
-        | .bin _ .lor l r => isOppF cpp isNot n .logic l c2 cond2 && isOppF cpp isNot n .logic r c2 cond2
-        | _ => false
+    else if !isNot && andHit (isOppF cpp isNot n) cpp cond1 cond2 then true
     else
-      match cond1 with
-      | .un _ .lnot x => notBranch cpp x c2 cond2
-      | _ =>
-        match cond2 with
-        | .un _ .lnot y =>
-          -- `return isOppositeCond(isNot, cond2, cond1, …)`: only the same-expression test and the `!` case are
-          -- reachable in the swapped call
-          if isSame cpp c2 cond2 c1 cond1 then false else notBranch cpp y c1 cond1
-        | _ => cmpPart cpp isNot cond1 cond2
+      match lorPick c1 cond1 c2 cond2 with
+      | some (l, r, co, other) => isOppF cpp isNot n .logic l co other && isOppF cpp isNot n .logic r co other
+      | none =>
+        match cond1.notArg with
+        | some x => notBranch cpp x c2 cond2
+        | none =>
+          match cond2.notArg with
+          | some y =>
+            -- `return isOppositeCond(isNot, cond2, cond1, …)`: only the same-expression test and the `!` case are
+            -- reachable in the swapped call
+            if isSame cpp c2 cond2 c1 cond1 then false else notBranch cpp y c1 cond1
+          | none => cmpPart cpp isNot cond1 cond2
 
 def isOpp (cpp isNot : Bool) (c1 : Ctx) (e1 : Expr) (c2 : Ctx) (e2 : Expr) : Bool :=
   isOppF cpp isNot (e1.size + e2.size) c1 e1 c2 e2
